@@ -2,13 +2,13 @@
    bool, option, unit, list, prod, sumbool, comparison map to OCaml's; nat, N, Z, positive stay
    Coq datatypes). No Extract Constant of our own. Run from the output directory. *)
 From Coq Require Import ExtrOcamlBasic.
-From SonicV Require Import Base.Blocks Spec.Ref Spec.Num
+From SonicV Require Import Base.Blocks Spec.Ref Spec.Num Spec.SortKeys
   Model.Err Model.Bitmap Model.PrefixXor Model.Bracket Model.Escape Model.SkipStr Model.SkipNum
   Model.Skip Model.Number Model.Inplace Model.Visitor Model.Cas Model.Arc Model.ObjEq Model.Many
   Model.Promote Model.Pretty Model.SerRoundTrip Model.NodeBudget Model.Latch Model.SkipAll Model.Meta Model.SerAll Model.TablesDefs Model.SerVal Model.DomOps Model.Simd.
 Set Extraction KeepSingleton.
 Separate Extraction
-  Spec.Ref Spec.Num
+  Spec.Ref Spec.Num Spec.SortKeys.sort_tree
   Base.Blocks.find_first Base.Blocks.find_blocks Base.Blocks.mask_of Base.Blocks.tz
   Model.Err.pos_of Model.Err.from_index Model.Err.syntax_bounds Model.Err.parser_error_index
   Model.Bitmap.get_escaped Model.Bitmap.escaped_spec
